@@ -50,6 +50,9 @@ func VerifTeardown() {
 		if p := verifParam("pin_client", -1); p >= 0 {
 			verifAssume(script[i] == p)
 		}
+		if p := verifParam("pin_first", -1); p >= 0 && i == 0 {
+			verifAssume(script[i] == p)
+		}
 	}
 	go func() {
 		if !client.vSend(vClientMsg("connection_init", "", "")) {
